@@ -70,20 +70,25 @@ Definition periodic_spec (x p got : fbits) : bool :=
        && Qle_bool (Qabs (Qof got - remainder_Q (Qof x) (Qof p))) (pow2 (-52) * Qof p).
 
 (* ---- radius and toroidal angle ---------------------------------------------------------------------------- *)
-(* r is a faithful rounding of sqrt(x^2 + y^2): pred(r)^2 <= x^2 + y^2 <= succ(r)^2, decided exactly *)
-Definition faithful_radius (x y r : fbits) : bool :=
+(* what is required of the radius handed to the wrapped function (libm hypot since efb2198), for ALL finite
+   (x, y) whose exact radius is representable, huge and subnormal-near-zero included: r is finite, r >= 0 and
+   |r - sqrt(x^2 + y^2)| <= max (2^-51 * r, 2^-1074), decided exactly on the squares.
+   2^-51 relative: hypot is accurate to about one unit in the last place but not correctly rounded (the former
+   sqrt(x*x + y*y) had four roundings, |error| <= 2 * 2^-53 + O(2^-106), and was measured more than one ulp off
+   about once in 2000 cases); 2^-1074 absolute: the spacing of subnormal results, where no relative bound can hold. *)
+Definition accurate_radius (x y r : fbits) : bool :=
   match r with
   | FZero _ | FFin false _ _ =>
       let s := Qof x * Qof x + Qof y * Qof y in
-      let lo := bits_of_F (next_down (F r)) in
-      let hi := bits_of_F (next_up (F r)) in
-      finite_bits hi
-      && (if Qle_bool (Qof lo) 0 then true else Qle_bool (Qof lo * Qof lo) s)
-      && Qle_bool s (Qof hi * Qof hi)
+      let q := Qof r in
+      let d := if Qle_bool (pow2 (-1074)) (q * pow2 (-51)) then q * pow2 (-51) else pow2 (-1074) in
+      let lo := if Qle_bool q d then 0 else q - d in
+      let hi := q + d in
+      Qle_bool (lo * lo) s && Qle_bool s (hi * hi)
   | _ => false
   end.
-(* tie: the code's sqrt(x*x + y*y) bit for bit *)
-Definition chk_radius (x y r : fbits) : bool := same [radius_F (F x) (F y)] [r].
+(* the radius before efb2198, bit for bit (only used to replay the old behaviour) *)
+Definition chk_radius_old (x y r : fbits) : bool := same [radius_F_old (F x) (F y)] [r].
 
 (* rational enclosures of pi *)
 Definition pi_lo : Q := 3141592653589793 # 1000000000000000.
